@@ -1,0 +1,90 @@
+//go:build verif
+// +build verif
+
+// Contracts for the verification machinery in /verif (comment-only; compiled only with -tags verif).
+package version
+
+// Mathematical order on (major, minor) pairs and the supported set, taken from the property
+// statement (C09): "accepted exactly when it lies in 5.0-5.6 or 7.0-7.4".
+
+//@ pred lt2(a1, a2, b1, b2) := a1 < b1 || (a1 == b1 && a2 < b2)
+//@ pred le2(a1, a2, b1, b2) := lt2(a1, a2, b1, b2) || (a1 == b1 && a2 == b2)
+//@ pred inr2(a1, a2, s1, s2, e1, e2) := le2(s1, s2, a1, a2) && le2(a1, a2, e1, e2)
+//@ pred sup2(a1, a2) := (a1 == 5 && a2 <= 6) || (a1 == 7 && a2 <= 4)
+//@ pred vlt(a, b) := lt2(a.Major, a.Minor, b.Major, b.Minor)
+//@ pred veq(a, b) := a.Major == b.Major && a.Minor == b.Minor
+//@ pred vle(a, b) := le2(a.Major, a.Minor, b.Major, b.Minor)
+//@ pred supported(v) := sup2(v.Major, v.Minor)
+//@ pred isver(v, ma, mi) := v != nil && v.Major == ma && v.Minor == mi
+
+//@ invariant isver(php5RangeStart, 5, 0) && isver(php5RangeEnd, 5, 6) && isver(php7RangeStart, 7, 0) && isver(php7RangeEnd, 7, 4)
+//@ invariant ErrUnsupportedVer != nil && ErrInvalidSemVer != nil
+
+//@ func compareSegment
+//@   ensures (v < o ==> result == -1) && (v > o ==> result == 1) && (v == o ==> result == 0)
+//@   modifies nothing
+//@   props C09
+
+//@ func (*Version).Compare
+//@   requires v != nil && o != nil
+//@   ensures (vlt(v, o) ==> result == -1) && (veq(v, o) ==> result == 0) && (vlt(o, v) ==> result == 1)
+//@   modifies nothing
+//@   props C09
+
+//@ func (*Version).Less
+//@   requires v != nil && o != nil
+//@   ensures result <==> vlt(v, o)
+//@   modifies nothing
+//@   props C09
+
+//@ func (*Version).LessOrEqual
+//@   requires v != nil && o != nil
+//@   ensures result <==> vle(v, o)
+//@   modifies nothing
+//@   props C09
+
+//@ func (*Version).Greater
+//@   requires v != nil && o != nil
+//@   ensures result <==> vlt(o, v)
+//@   modifies nothing
+//@   props C09
+
+//@ func (*Version).GreaterOrEqual
+//@   requires v != nil && o != nil
+//@   ensures result <==> vle(o, v)
+//@   modifies nothing
+//@   props C09
+
+//@ func (*Version).InRange
+//@   requires v != nil && s != nil && e != nil
+//@   ensures result <==> (vle(s, v) && vle(v, e))
+//@   modifies nothing
+//@   props C09
+
+//@ func (*Version).Validate
+//@   requires v != nil
+//@   ensures (result == nil) <==> supported(v)
+//@   ensures result != nil ==> result == ErrUnsupportedVer
+//@   modifies nothing
+//@   props C09
+
+// New: the two decimal fields are ParseUint of the SplitN parts (assumed stdlib contracts);
+// what is proved is the shape: a non-nil version is fresh and comes with a nil error, and
+// nothing that existed before is modified.
+//@ func New
+//@   ensures (result0 != nil) <==> (result1 == nil)
+//@   ensures result0 != nil ==> fresh(result0)
+//@   modifies nothing
+//@   props C09
+
+// The version classes of C09: same family and same side of the 7.3 heredoc change. The three
+// predicates through which a version can influence a parse (E-FRAME read-site obligations)
+// coincide inside each class.
+//@ pred nat2(a1, a2) := 0 <= a1 && 0 <= a2
+//@ pred sameclass(a1, a2, b1, b2) := (a1 == 5 && b1 == 5 && a2 <= 6 && b2 <= 6) || (a1 == 7 && b1 == 7 && a2 <= 2 && b2 <= 2) || (a1 == 7 && b1 == 7 && 3 <= a2 && a2 <= 4 && 3 <= b2 && b2 <= 4)
+//@ lemma accept_iff_supported: forall a1, a2 :: nat2(a1, a2) ==> (sup2(a1, a2) <==> (inr2(a1, a2, 5, 0, 5, 6) || inr2(a1, a2, 7, 0, 7, 4)))
+//@ lemma php5_iff_major5: forall a1, a2 :: nat2(a1, a2) && sup2(a1, a2) ==> (inr2(a1, a2, 5, 0, 5, 6) <==> a1 == 5)
+//@ lemma sameclass_same_dispatch: forall a1, a2, b1, b2 :: nat2(a1, a2) && nat2(b1, b2) && sameclass(a1, a2, b1, b2) ==> ((inr2(a1, a2, 5, 0, 5, 6) <==> inr2(b1, b2, 5, 0, 5, 6)) && (inr2(a1, a2, 7, 0, 7, 4) <==> inr2(b1, b2, 7, 0, 7, 4)))
+//@ lemma sameclass_same_heredoc_mode: forall a1, a2, b1, b2 :: nat2(a1, a2) && nat2(b1, b2) && sameclass(a1, a2, b1, b2) ==> (le2(7, 3, a1, a2) <==> le2(7, 3, b1, b2))
+//@ lemma order_total: forall a1, a2, b1, b2 :: lt2(a1, a2, b1, b2) || lt2(b1, b2, a1, a2) || (a1 == b1 && a2 == b2)
+//@ lemma order_transitive: forall a1, a2, b1, b2, c1, c2 :: lt2(a1, a2, b1, b2) && lt2(b1, b2, c1, c2) ==> lt2(a1, a2, c1, c2)
